@@ -13,6 +13,9 @@
 //!   reuse-*             program spaces of other checks re-run under the totality oracle
 
 mod shapes;
+#[path = "../c11/graph.rs"]
+#[allow(dead_code)]
+mod graph;
 
 use mccore::engine::{self, Out};
 use mccore::vals::{self, V};
@@ -389,6 +392,57 @@ fn main() {
                         totality(&t, &prog, &ctx, acc, "chains", "chain", true, &case);
                     }
                     Err(e) => acc.violation("chain-rejected", format!("an acyclic chain was refused: {}", e.show()), case),
+                }
+            },
+        );
+    }
+
+    // ------------------------------------------------------------ graphs (shared model of C11)
+    // every extends/include graph on 3 templates over the structure alphabet: whatever
+    // add_raw_templates accepts must render (every template, every API) without crashing
+    {
+        use graph::{AlphabetSpec, Mode, Naming, Place};
+        let spec = AlphabetSpec {
+            n: 3,
+            missing_extends: false,
+            missing_include: false,
+            child_modes: vec![Mode::Absent, Mode::Super],
+            places: vec![Place::Top, Place::Block],
+            max_includes: 1,
+        };
+        let configs = spec.configs();
+        let radix = configs.len() as u64;
+        let nm = Naming::plain(3);
+        let sources = |item: u64| -> Vec<(String, String)> {
+            let idx = graph::decode(item, 3, radix);
+            (0..3)
+                .map(|i| (nm.names[i].clone(), graph::source(i, &configs[idx[i]], &nm)))
+                .collect()
+        };
+        run.family(
+            Family::new(
+                "graphs-totality",
+                radix * radix * radix,
+                &format!("all {radix}^3 extends/include graphs on 3 templates ({}): every accepted set renders every template without crash", spec.describe()),
+            )
+            .budget(240.0)
+            .describe(|i| json!({"templates": sources(i)}))
+            .crash_signature(|_, kind| format!("{kind}:accepted-graph-render")),
+            |item, acc: &mut Acc| {
+                let tpls = sources(item);
+                let mut t = Tera::default();
+                let add = engine::add_templates(&mut t, &tpls);
+                if let Out::Panic(p) = &add {
+                    acc.violation("panic:add:graph", format!("add_raw_templates panicked: {p}"), || json!({"templates": tpls}));
+                }
+                if !add.is_ok() {
+                    acc.case(false, "rejected");
+                    return;
+                }
+                let ctx = bind(&[V::I64(1), V::I64(2), V::I64(3)]);
+                for (name, _) in &tpls {
+                    let prog = Program { templates: tpls.clone(), entry: name.clone(), blocks: vec!["b".into()], components: vec![] };
+                    totality(&t, &prog, &ctx, acc, "graphs-totality", "graph", true, &|| json!({"templates": tpls, "entry": name}));
                 }
             },
         );
